@@ -28,6 +28,7 @@ func runC09(c *Ctx) {
 	c09R3(c)
 	indexResolution(c, "R4")
 	memberResolutionOrder(c, "R8")
+	c.shared("R11", "C08/R4", "assigning to a parameter changes the callee's own cell only: every declared parameter — supplied or not — is bound to a fresh cell in the callee's frame, so the name cannot resolve to a variable of a calling frame", nil, c08R4)
 	c.shared("R10", "C02/R4", "assigning to $ (or growing it) in a pattern rule changes the document: for an array root $ is the element's own cell, not a copy", keyHas("array-root-per-element"), c02R4)
 	if es := c.P.LangFunc("(*Evaluator).evalStatement"); es != nil {
 		c.shared("R9", "C07/R7", "the loop variable of for-in receives a copy of the element's value in a cell of its own: assigning to it (or reusing its name later) does not change the array", keyHas("for-in ValueArray", "for-in ValueObj"), func(s *Ctx) { c07ForIn(s, es) })
@@ -256,8 +257,52 @@ func c09R3(c *Ctx) {
 }
 
 // R6 speculative-creation
+// assignmentAlwaysStores: every successful assignment writes its target.
+func assignmentAlwaysStores(c *Ctx, rule string) {
+	p := c.P
+	c.note("%s assignment-always-stores: evalAssignment returns successfully only through the copy of the right-hand value into the target cell (copyValue(right, target) dominates every success return), and the result it returns is that copy's result: no kind of value (null included) and no kind of target (a missing member included) is skipped.", rule)
+	ea := p.LangFunc("(*Evaluator).evalAssignment")
+	cv := p.LangFunc("copyValue")
+	if ea == nil || cv == nil {
+		c.undecided(rule, "evalAssignment", "", "anchor not found")
+		return
+	}
+	var right *ssa.Parameter
+	for _, prm := range ea.Params {
+		if prm.Name() == "right" {
+			right = prm
+		}
+	}
+	var copies []ssa.Instruction
+	for _, call := range callsIn(ea) {
+		if call.Common().StaticCallee() == cv && (right == nil || call.Common().Args[0] == ssa.Value(right)) {
+			copies = append(copies, call)
+		}
+	}
+	ek := EKOf(p)
+	n := 0
+	for _, r := range returnsOf(ea) {
+		res := effectiveResults(r)
+		if !ek.KindsAt(res[len(res)-1], FactsOf(ea).At(r.Block())).Has(KNil) {
+			continue
+		}
+		n++
+		stored := false
+		for _, cp := range copies {
+			if dominatesInstr(cp, r) {
+				stored = true
+			}
+		}
+		c.check(stored, rule, fmt.Sprintf("assignment-always-stores #%d", n), p.InstrPos(r), "the success return follows the copy into the target", "evalAssignment can return successfully without copying the right-hand value into the target: the assignment is silently dropped for some combination of value and target (e.g. null assigned to a missing member, which should create it)")
+	}
+	if n == 0 {
+		c.undecided(rule, "assignment-always-stores", p.Pos(ea.Pos()), "no success return found in evalAssignment")
+	}
+}
+
 func c09R6(c *Ctx) {
 	p := c.P
+	assignmentAlwaysStores(c, "R6")
 	c.note("R6 speculative-creation: createSpeculativeObjects materialises the parent first (recursive call on the parent when the parent is itself speculative), makes an object when the pending key is a string and an array when it is a number, and stores the member through SetMember under that key.")
 	cs := p.LangFunc("(*Evaluator).createSpeculativeObjects")
 	if cs == nil {
